@@ -3,7 +3,7 @@
    [writer_array_length_word]; the invariant is [value_written] (a value written at any
    position inside any stack of open containers). *)
 From DV Require Import Lib.Base Gen.Tables Spec.Codec Wire.Sig Wire.Body Wire.HeaderEdit Wire.Writer
-  Proofs.CodecBasics Proofs.CodecWf Proofs.CodecRoundtrip Proofs.SigRoundtrip Proofs.BodySound Proofs.WireClean.
+  Proofs.CodecBasics Proofs.CodecWf Proofs.CodecRoundtrip Proofs.CodecMessage Proofs.SigRoundtrip Proofs.BodySound Proofs.WireClean.
 From Coq Require Import ZArith ZifyBool ZifyN ZifyNat Arith.
 Local Open Scope N_scope.
 Ltac Zify.zify_post_hook ::= Z.div_mod_to_equations.
@@ -248,3 +248,845 @@ Proof.
       rewrite insert_at_end. rewrite insert_at_end' by (nl; lia).
       f_equal. f_equal; [rewrite <- app_assoc; reflexivity | nl; lia].
 Qed.
+
+(* ---- writers that are ready to take a value ------------------------------------------------ *)
+(* the temporary signature string after the type codes [sg] went through writer [w] *)
+Definition act_sig (sigstr : option bytes) (w : writer) (sg : bytes) : option bytes :=
+  if w_exp w then sigstr else match sigstr with Some s => Some (s ++ sg) | None => None end.
+
+Definition is_sd (v : val) : bool := match v with VStruct _ | VDictE _ _ => true | _ => false end.
+
+(* type_pos of the writer after a complete value went through it: fixed directly inside an array;
+   a variant's single value leaves it wherever the last operation put it *)
+Definition tpos_after (w : writer) (v : val) : N :=
+  if w_ct w =? 97 then w_tpos w
+  else if (w_ct w =? 118) && is_sd v then w_tpos w
+  else w_tpos w + nlen (print_ty (ty_of_val v)).
+
+Definition post_w (w : writer) (tpos vpos : N) : writer :=
+  mkW (w_ct w) (w_ts w) tpos (w_exp w) vpos (w_lenpos w) (w_start w) (w_etpos w) (w_refs w).
+
+(* an iterator with a type string: either it extends the signature string at its end (top level
+   while a container is open, structs and dict entries outside arrays/variants), or it verifies
+   against the expected signature [sg] found at type_pos (everything below an array or variant) *)
+Definition active (m : strs) (w : writer) (sg : bytes) : Prop :=
+  1 <= w_refs w /\
+  ((w_exp w = false /\ w_ts w = TsSig /\ (exists s, s_sigstr m = Some s /\ w_tpos w = nlen s) /\
+    (w_ct w = 0 \/ w_ct w = 114 \/ w_ct w = 101))
+   \/
+   (w_exp w = true /\ w_ts w <> TsNone /\ (exists ts, ts_get m (w_ts w) = Some ts /\ sub_at ts (w_tpos w) sg) /\
+    (w_ct w = 97 \/ w_ct w = 118 \/ w_ct w = 114 \/ w_ct w = 101) /\ (w_ct w = 97 -> w_etpos w = w_tpos w))).
+
+(* the top-level iterator between two API calls *)
+Definition idle (m : strs) (w : writer) : Prop :=
+  w_ts w = TsNone /\ s_sigstr m = None /\ w_refs w = 0 /\ w_exp w = false /\ w_ct w = 0 /\ w_tpos w = 0.
+
+Definition head_ok (sf : bytes) (m : strs) (w : writer) (sg tail : bytes) : Prop :=
+  (idle m w /\ nlen (sf ++ sg) <= 255) \/ active m w (sg ++ tail).
+
+Lemma active_prefix m w a b : active m w (a ++ b) -> active m w a.
+Proof.
+  intros [Hr [H|(He & Ht & (ts & Hts & Hs) & Hc)]]; split; auto.
+  right. repeat split; try tauto. exists ts. split; [exact Hts|]. eapply sub_at_prefix; exact Hs.
+Qed.
+
+Lemma active_has_ts m w sg : active m w sg -> has_ts w = true.
+Proof.
+  intros [_ [(_ & Ht & _)|(_ & Ht & _)]]; unfold has_ts; [rewrite Ht; reflexivity|]. destruct (w_ts w); try reflexivity. congruence.
+Qed.
+
+(* the body grows at its end, value_pos moves: the writer stays ready for the same signature *)
+Lemma active_grow body sigstr w sg x vp :
+  active (mkS body sigstr) w sg -> active (mkS (body ++ x) sigstr) (post_w w (w_tpos w) vp) sg.
+Proof.
+  intros [Hr [H|(He & Ht & (ts & Hts & Hs) & Hc)]]; (split; [exact Hr|]); [left; exact H|right].
+  cbn [post_w w_exp w_ts w_tpos w_ct w_etpos]. repeat split; try tauto.
+  destruct (w_ts w) eqn:E; [congruence| |]; cbn [ts_get s_sigstr s_bodystr] in *.
+  - exists ts. auto.
+  - injection Hts as <-. exists (body ++ x). split; [reflexivity|]. apply sub_at_app. exact Hs.
+Qed.
+
+(* after a complete value of signature [a] in a writer that is not directly inside an array *)
+Lemma active_next body sigstr w a b x vp : active (mkS body sigstr) w (a ++ b) -> w_ct w <> 97 ->
+  active (mkS (body ++ x) (act_sig sigstr w a)) (post_w w (w_tpos w + nlen a) vp) b.
+Proof.
+  intros [Hr [(He & Ht & (s & Hs & Hp) & Hc)|(He & Ht & (ts & Hts & Hs) & Hc & Het)]] Hn; (split; [exact Hr|]).
+  - left. cbn [post_w w_exp w_ts w_tpos w_ct]. repeat split; try tauto.
+    cbn [s_sigstr] in Hs. subst sigstr. unfold act_sig. rewrite He. exists (s ++ a). cbn [s_sigstr]. split; [reflexivity|]. rewrite Hp, nlen_app. reflexivity.
+  - right. cbn [post_w w_exp w_ts w_tpos w_ct w_etpos]. repeat split; try tauto.
+    unfold act_sig. rewrite He.
+    destruct (w_ts w) eqn:E; [congruence| |]; cbn [ts_get s_sigstr s_bodystr] in *.
+    + exists ts. split; [exact Hts|]. apply sub_at_tail. exact Hs.
+    + injection Hts as <-. exists (body ++ x). split; [reflexivity|]. apply sub_at_app. apply sub_at_tail. exact Hs.
+Qed.
+
+Lemma act_sig_app o w w' a b : w_exp w' = w_exp w -> act_sig (act_sig o w a) w' b = act_sig o w (a ++ b).
+Proof. intros E. unfold act_sig. rewrite E. destruct (w_exp w); [reflexivity|]. destruct o; [rewrite <- app_assoc|]; reflexivity. Qed.
+
+(* write_or_verify_typecode on a ready writer *)
+Lemma wov_active body sigstr w tc tail : active (mkS body sigstr) w (tc :: tail) ->
+  write_or_verify_typecode (mkS body sigstr) w tc =
+  Some (mkS body (act_sig sigstr w [tc]), post_w w (if w_ct w =? 97 then w_tpos w else w_tpos w + 1) (w_vpos w)).
+Proof.
+  destruct w as [ct ts tpos ex vpos lp st et refs]. unfold active, act_sig, post_w. cbn [w_ct w_ts w_tpos w_exp w_vpos w_lenpos w_start w_etpos w_refs s_sigstr].
+  intros [Hr [(He & Ht & (s & Hs & Hp) & Hc)|(He & Ht & (tstr & Hts & Hs) & Hc & Het)]]; subst.
+  - unfold write_or_verify_typecode. cbn [w_ts w_exp w_tpos ts_get s_sigstr]. rewrite insert_at_end.
+    replace (ct =? 97) with false by (destruct Hc as [-> |[-> | ->]]; reflexivity). reflexivity.
+  - unfold write_or_verify_typecode. cbn [w_ts w_exp w_tpos w_ct]. 
+    destruct ts; [congruence| |]; rewrite Hts; rewrite (sub_at_head _ _ _ _ Hs), N.eqb_refl;
+      change DBUS_TYPE_ARRAY with 97; destruct (ct =? 97); reflexivity.
+Qed.
+
+(* _dbus_type_writer_write_basic on a ready writer *)
+Lemma basic_active le body sigstr w v depth tail : is_basic_val' v -> wfb le depth (nlen body) v = true ->
+  w_vpos w = nlen body -> active (mkS body sigstr) w (print_ty (ty_of_val v) ++ tail) ->
+  type_writer_write_basic le (mkS body sigstr) w v =
+  Some (mkS (body ++ enc le v (nlen body)) (act_sig sigstr w (print_ty (ty_of_val v))),
+        post_w w (tpos_after w v) (nlen (body ++ enc le v (nlen body)))).
+Proof.
+  intros Hb Hw Hv Ha. unfold type_writer_write_basic. cbn [s_bodystr s_sigstr]. rewrite Hv.
+  rewrite (marshal_basic_wf le body depth v Hb Hw).
+  assert (exists c, typecode_of_basic v = Some c /\ print_ty (ty_of_val v) = [c] /\ is_sd v = false) as (c & E1 & E2 & E3)
+    by (destruct v; try contradiction; eexists; repeat split).
+  rewrite E1, E2 in *. cbn [app] in Ha.
+  pose proof (active_grow body sigstr w (c :: tail) (enc le v (nlen body)) (nlen body + nlen (enc le v (nlen body))) Ha) as Ha'.
+  change (set_vpos w (nlen body + nlen (enc le v (nlen body)))) with (post_w w (w_tpos w) (nlen body + nlen (enc le v (nlen body)))).
+  rewrite (wov_active _ _ _ _ _ Ha'). unfold tpos_after. rewrite E2, E3, andb_false_r, nlen_app.
+  destruct w as [ct ts tpos ex vpos lp st et refs]. unfold post_w, act_sig. cbn [w_ct w_ts w_tpos w_exp w_vpos w_lenpos w_start w_etpos w_refs].
+  change (nlen [c]) with 1. destruct (ct =? 97); reflexivity.
+Qed.
+
+(* ---- the iterator glue: open_signature ... close_signature around one API call -------------- *)
+Definition post_state (le : bool) (sf body : bytes) (sigstr : option bytes) (w : writer) (rest : list writer)
+  (sg : bytes) (tp : N) (body' : bytes) : wstate :=
+  match w_ts w with
+  | TsNone => mkWS le (mkS body' None) (sf ++ sg)
+                   (mkW (w_ct w) TsNone 0 (w_exp w) (nlen body') (w_lenpos w) (w_start w) (w_etpos w) 0 :: rest)
+  | _ => mkWS le (mkS body' (act_sig sigstr w sg)) sf (post_w w tp (nlen body') :: rest)
+  end.
+
+Lemma sig_wrap le sf body sigstr w rest sg tail : head_ok sf (mkS body sigstr) w sg tail ->
+  exists sigstr1 w1,
+    iter_open_signature sf (mkS body sigstr) w = Some (mkS body sigstr1, w1) /\
+    active (mkS body sigstr1) w1 (sg ++ tail) /\ w_vpos w1 = w_vpos w /\
+    forall body' v, exists sf' m' w',
+      iter_close_signature sf (mkS body' (act_sig sigstr1 w1 sg)) (post_w w1 (tpos_after w1 v) (nlen body')) = Some (sf', m', w') /\
+      mkWS le m' sf' (w' :: rest) = post_state le sf body sigstr w rest sg (tpos_after w v) body'.
+Proof.
+  destruct w as [ct ts tpos ex vpos lp st et refs].
+  intros [[(Ht & Hs & Hr & He & Hc & Hp) Hl]|Ha]; cbn [w_ct w_ts w_tpos w_exp w_vpos w_lenpos w_start w_etpos w_refs s_sigstr] in *.
+  - subst. exists (Some sf), (mkW 0 TsSig (nlen sf) false vpos lp st et 1). split; [reflexivity|]. split; [|split; [reflexivity|]].
+    + split; [cbn; lia|]. left. cbn. repeat split; auto. exists sf. auto.
+    + intros body' v. unfold iter_close_signature, post_w, act_sig, post_state.
+      cbn [w_ct w_ts w_tpos w_exp w_vpos w_lenpos w_start w_etpos w_refs has_ts negb orb s_sigstr s_bodystr].
+      change (1 =? 0) with false. change (0 <? 1 - 1) with false. cbv iota.
+      change DBUS_MAXIMUM_SIGNATURE_LENGTH with 255. replace (255 <? nlen (sf ++ sg)) with false by lia.
+      eexists _, _, _. split; reflexivity.
+  - pose proof Ha as [Hr Hm]. cbn [w_refs] in Hr.
+    exists sigstr, (mkW ct ts tpos ex vpos lp st et (refs + 1)). 
+    assert (Hts : ts <> TsNone) by (destruct Hm as [(_ & Ht & _)|(_ & Ht & _)]; cbn [w_ts] in Ht; congruence).
+    split; [|split; [|split; [reflexivity|]]].
+    + unfold iter_open_signature. cbn [w_ts w_refs]. replace (refs =? 0) with false by lia. destruct ts; [congruence|reflexivity|reflexivity].
+    + destruct Ha as [_ Hx]. split; [cbn [w_refs]; lia|]. exact Hx.
+    + intros body' v. unfold iter_close_signature, post_w, post_state, has_ts.
+      cbn [w_ct w_ts w_tpos w_exp w_vpos w_lenpos w_start w_etpos w_refs has_ts].
+      assert (Hh : (match ts with TsNone => false | _ => true end) = true) by (destruct ts; congruence). rewrite Hh. cbn [negb orb].
+      replace (refs + 1 =? 0) with false by lia. replace (0 <? refs + 1 - 1) with true by lia.
+      unfold set_refs. cbn [w_ct w_ts w_tpos w_exp w_vpos w_lenpos w_start w_etpos w_refs].
+      replace (refs + 1 - 1) with refs by lia.
+      eexists _, _, _. split; [reflexivity|]. destruct ts; [congruence|reflexivity|reflexivity].
+Qed.
+
+Lemma run_ops_app a b st : run_ops (a ++ b) st = match run_ops a st with Some st' => run_ops b st' | None => None end.
+Proof. revert st. induction a as [|x r IH]; intros st; [reflexivity|]. cbn [app run_ops]. destruct (writer_step st x); [apply IH|reflexivity]. Qed.
+
+Lemma run_basic le sf m w rest v m1 w1 m2 w2 sf' m3 w3 :
+  iter_open_signature sf m w = Some (m1, w1) ->
+  type_writer_write_basic le m1 w1 v = Some (m2, w2) ->
+  iter_close_signature sf m2 w2 = Some (sf', m3, w3) ->
+  run_ops [WBasic v] (mkWS le m sf (w :: rest)) = Some (mkWS le m3 sf' (w3 :: rest)).
+Proof.
+  intros H1 H2 H3. cbn [run_ops]. unfold writer_step. cbn [ws_le ws_strs ws_sigfield ws_iters]. rewrite H1, H2, H3. reflexivity.
+Qed.
+
+Lemma run_container le sf m w rest k c elems m1 w1 m2 w2 sub m3 sub' m4 w4 sf' m5 w5 :
+  iter_open_signature sf m w = Some (m1, w1) ->
+  type_writer_recurse le m1 w1 k c = Some (m2, w2, sub) ->
+  run_ops elems (mkWS le m2 sf (sub :: w2 :: rest)) = Some (mkWS le m3 sf (sub' :: w2 :: rest)) ->
+  type_writer_unrecurse le m3 w2 sub' = Some (m4, w4) ->
+  iter_close_signature sf m4 w4 = Some (sf', m5, w5) ->
+  run_ops (WOpen k c :: elems ++ [WClose]) (mkWS le m sf (w :: rest)) = Some (mkWS le m5 sf' (w5 :: rest)).
+Proof.
+  intros H1 H2 H3 H4 H5. cbn [run_ops]. unfold writer_step at 1. cbn [ws_le ws_strs ws_sigfield ws_iters]. rewrite H1, H2.
+  rewrite run_ops_app, H3. cbn [run_ops]. unfold writer_step. cbn [ws_le ws_strs ws_sigfield ws_iters]. rewrite H4, H5. reflexivity.
+Qed.
+
+(* ---- opening and closing containers on a ready writer ------------------------------------------ *)
+Lemma init_check_active m w ct' bc x : active m w (bc :: x) -> map_type_char_to_type bc = Some ct' ->
+  writer_recurse_init_and_check m w ct' =
+  Some (mkW ct' (w_ts w) (w_tpos w) (w_exp w || (ct' =? 97) || (ct' =? 118)) (w_vpos w) (w_lenpos w) (w_start w) (w_etpos w) (w_refs w)).
+Proof.
+  intros Ha Hm. unfold writer_recurse_init_and_check. rewrite (active_has_ts _ _ _ Ha), andb_true_r.
+  destruct Ha as [_ [(He & _)|(He & Ht & (ts & Hts & Hs) & _)]]; rewrite He; [reflexivity|].
+  rewrite Hts. unfold first_type_in_signature. rewrite (sub_at_head _ _ _ _ Hs), Hm, N.eqb_refl. reflexivity.
+Qed.
+
+(* a struct / dict-entry sub-writer of a ready writer is ready for the same signature *)
+Lemma active_sub m w sg ct' : active m w sg -> (ct' = 114 \/ ct' = 101) ->
+  active m (mkW ct' (w_ts w) (w_tpos w) (w_exp w) (w_vpos w) (w_lenpos w) (w_start w) (w_etpos w) (w_refs w)) sg.
+Proof.
+  intros [Hr [(He & Ht & Hs & Hc)|(He & Ht & Hs & Hc & Het)]] Hct; (split; [exact Hr|]); cbn [w_ct w_ts w_tpos w_exp w_etpos].
+  - left. repeat split; auto; tauto.
+  - right. repeat split; auto; try tauto. intros E. destruct Hct; lia.
+Qed.
+
+Lemma open_sd le body sigstr w k ct' bc x :
+  ((k = KStruct /\ ct' = 114 /\ bc = 40) \/ (k = KDict /\ ct' = 101 /\ bc = 123)) ->
+  active (mkS body sigstr) w (bc :: x) -> w_vpos w = nlen body ->
+  type_writer_recurse le (mkS body sigstr) w k [] =
+  Some (mkS (body ++ zeros (pad_amount (nlen body) 8)) (act_sig sigstr w [bc]), w,
+        mkW ct' (w_ts w) (w_tpos w + 1) (w_exp w) (nlen body + pad_amount (nlen body) 8) (w_lenpos w) (w_start w) (w_etpos w) (w_refs w)).
+Proof.
+  intros Hk Ha Hv.
+  assert (Hm : map_type_char_to_type bc = Some ct') by (destruct Hk as [(_ & -> & ->)|(_ & -> & ->)]; reflexivity).
+  assert (Hc : ct' = 114 \/ ct' = 101) by (destruct Hk as [(_ & -> & _)|(_ & -> & _)]; auto).
+  assert (E : type_writer_recurse le (mkS body sigstr) w k [] =
+              match writer_recurse_init_and_check (mkS body sigstr) w ct' with
+              | None => None
+              | Some sub => match writer_recurse_struct_or_dict_entry (mkS body sigstr) bc sub with
+                            | Some (m1, sub1) => Some (m1, w, sub1) | None => None end
+              end) by (destruct Hk as [(-> & -> & ->)|(-> & -> & ->)]; reflexivity).
+  rewrite E, (init_check_active _ _ _ _ _ Ha Hm).
+  replace (w_exp w || (ct' =? 97) || (ct' =? 118)) with (w_exp w) by (destruct Hc as [-> | ->]; cbn; rewrite !orb_false_r; reflexivity).
+  unfold writer_recurse_struct_or_dict_entry.
+  rewrite (wov_active _ _ _ _ _ (active_sub _ _ _ ct' Ha Hc)).
+  cbn [post_w w_ct w_ts w_tpos w_exp w_vpos w_lenpos w_start w_etpos w_refs s_bodystr s_sigstr].
+  replace (ct' =? 97) with false by (destruct Hc as [-> | ->]; reflexivity).
+  rewrite Hv, pad_body_end by tauto. unfold set_vpos, act_sig. cbn [w_ct w_ts w_tpos w_exp w_vpos w_lenpos w_start w_etpos w_refs]. reflexivity.
+Qed.
+
+Lemma close_sd le body sigstr w sub ct' cc x :
+  ((ct' = 114 /\ cc = 41) \/ (ct' = 101 /\ cc = 125)) -> w_ct sub = ct' -> has_ts w = true ->
+  active (mkS body sigstr) sub (cc :: x) ->
+  type_writer_unrecurse le (mkS body sigstr) w sub =
+  Some (mkS body (act_sig sigstr sub [cc]),
+        post_w w (if (w_ct w =? 114) || (w_ct w =? 101) || (w_ct w =? 0) then w_tpos sub + 1 else w_tpos w) (w_vpos sub)).
+Proof.
+  intros Hk Hc Hh Ha. unfold type_writer_unrecurse.
+  assert (E : (if w_ct sub =? DBUS_TYPE_STRUCT then write_or_verify_typecode (mkS body sigstr) sub DBUS_STRUCT_END_CHAR
+               else if w_ct sub =? DBUS_TYPE_DICT_ENTRY then write_or_verify_typecode (mkS body sigstr) sub DBUS_DICT_ENTRY_END_CHAR
+               else if w_ct sub =? DBUS_TYPE_ARRAY then
+                 if w_vpos sub <? w_start sub then None else
+                 match overwrite_at (w_lenpos sub) (bytes_of le 4 (w_vpos sub - w_start sub)) (s_bodystr (mkS body sigstr)) with
+                 | Some b => Some (mkS b (s_sigstr (mkS body sigstr)), sub) | None => None end
+               else Some (mkS body sigstr, sub)) = write_or_verify_typecode (mkS body sigstr) sub cc)
+    by (rewrite Hc; destruct Hk as [(-> & ->)|(-> & ->)]; reflexivity).
+  rewrite E, (wov_active _ _ _ _ _ Ha). rewrite Hc.
+  replace (ct' =? 97) with false by (destruct Hk as [(-> & _)|(-> & _)]; reflexivity).
+  cbn [post_w w_ct w_ts w_tpos w_exp w_vpos w_lenpos w_start w_etpos w_refs]. rewrite Hh, Hc.
+  replace ((ct' =? DBUS_TYPE_STRUCT) || (ct' =? DBUS_TYPE_DICT_ENTRY)) with true by (destruct Hk as [(-> & _)|(-> & _)]; reflexivity).
+  cbn [andb]. change DBUS_TYPE_STRUCT with 114. change DBUS_TYPE_DICT_ENTRY with 101.
+  destruct w as [ct ts tpos ex vpos lp st et refs]. cbn [w_ct w_ts w_tpos w_exp w_vpos w_lenpos w_start w_etpos w_refs].
+  destruct ((ct =? 114) || (ct =? 101) || (ct =? 0)); reflexivity.
+Qed.
+
+Lemma firstn_nlen {A} (l : list A) : firstn (N.to_nat (nlen l)) l = l.
+Proof. rewrite nlen_to_nat. apply firstn_all. Qed.
+
+(* writer_recurse_array: length placeholder at the 4-aligned position, padding to the element
+   alignment (also when no element follows), start position = arr_start *)
+Lemma open_array le body sigstr w et x : tygood et = true ->
+  active (mkS body sigstr) w (97 :: print_ty et ++ x) -> w_vpos w = nlen body ->
+  type_writer_recurse le (mkS body sigstr) w KArray (print_ty et) =
+  Some (mkS (body ++ zeros (pad_amount (nlen body) 4) ++ bytes_of le 4 0 ++
+             zeros (pad_amount (nlen body + pad_amount (nlen body) 4 + 4) (spec_align et)))
+            (act_sig sigstr w (97 :: print_ty et)),
+        post_w w (if w_ct w =? 97 then w_tpos w else w_tpos w + (1 + nlen (print_ty et))) (w_vpos w),
+        mkW 97 (w_ts w) (w_tpos w + 1) true (arr_start (nlen body) et) (nlen body + pad_amount (nlen body) 4)
+            (arr_start (nlen body) et) (w_tpos w + 1) (w_refs w)).
+Proof.
+  intros G Ha Hv. unfold type_writer_recurse. rewrite (find_len_print et G), firstn_nlen.
+  cbn [ctype_of]. change DBUS_TYPE_ARRAY with 97.
+  rewrite (init_check_active _ _ 97 _ _ Ha eq_refl). change (97 =? 97) with true. rewrite orb_true_r. cbn [orb].
+  destruct (elem_align_print et G) as [Hal Hcases].
+  pose proof (active_has_ts _ _ _ Ha) as Hh.
+  unfold writer_recurse_array. rewrite Hh, andb_true_r. cbn [w_ct w_ts w_tpos w_exp w_vpos w_lenpos w_start w_etpos w_refs negb].
+  change DBUS_TYPE_ARRAY with 97.
+  set (p1 := pad_amount (nlen body) 4). set (p2 := pad_amount (nlen body + p1 + 4) (spec_align et)).
+  assert (Hm4 : marshal_octets le body (nlen body) 4 0 = Some (body ++ zeros p1 ++ bytes_of le 4 0, nlen body + (p1 + 4)))
+    by (apply marshal_octets_end; tauto).
+  assert (Hpad : pad_body (body ++ zeros p1 ++ bytes_of le 4 0) (nlen body + (p1 + 4)) (spec_align et) =
+                 Some ((body ++ zeros p1 ++ bytes_of le 4 0) ++ zeros p2, arr_start (nlen body) et)).
+  { replace (nlen body + (p1 + 4)) with (nlen (body ++ zeros p1 ++ bytes_of le 4 0)) by (nl; lia).
+    rewrite pad_body_end by exact Hcases. f_equal. f_equal; [f_equal; unfold p2; nl; replace (nlen body + (p1 + N.of_nat 4)) with (nlen body + p1 + 4) by lia; reflexivity|].
+    unfold arr_start, p2, p1. nl. replace (nlen body + (pad_amount (nlen body) 4 + N.of_nat 4)) with (nlen body + pad_amount (nlen body) 4 + 4) by lia. lia. }
+  destruct w as [ct ts tpos ex vpos lp st et' refs]. cbn [w_ct w_ts w_tpos w_exp w_vpos w_lenpos w_start w_etpos w_refs post_w] in *.
+  destruct Ha as [Hr [(He & Ht & (s & Hs & Hp) & Hc)|(He & Ht & (tstr & Hts & Hsub) & Hc & Het)]];
+    cbn [w_ct w_ts w_tpos w_exp w_vpos w_lenpos w_start w_etpos w_refs s_sigstr] in *; subst.
+  - (* the outermost array: the type string is extended *)
+    replace (ct =? 97) with false by (destruct Hc as [-> |[-> | ->]]; reflexivity). cbn [andb negb].
+    cbn [ts_get s_sigstr]. rewrite insert_at_end. cbn [ts_put s_bodystr s_sigstr ts_get].
+    rewrite insert_at_end' by (nl; lia). cbn [s_bodystr s_sigstr].
+    rewrite Hm4. rewrite (align_value_pad (nlen body) 4) by tauto. fold p1.
+    replace (nlen body + p1 + 4 =? nlen body + (p1 + 4)) with true by lia. cbn [negb].
+    rewrite Hal, Hpad. unfold act_sig, set_tpos. cbn [w_ct w_ts w_tpos w_exp w_vpos w_lenpos w_start w_etpos w_refs].
+    rewrite <- !app_assoc. cbn [app]. repeat f_equal.
+  - (* below an array or variant: the expected type is verified *)
+    cbn [andb]. assert (Hne : ts <> TsNone) by exact Ht.
+    assert (Hchk : (if ct =? 97 then match ts_get (mkS body sigstr) ts with
+                                     | Some ts0 => equal_substring (print_ty et) ts0 (et' + 1) | None => None end
+                    else Some true) = Some true).
+    { destruct (ct =? 97) eqn:E; [|reflexivity]. rewrite Hts. rewrite (Het ltac:(lia)).
+      apply sub_at_equal. change (97 :: print_ty et ++ x) with ([97] ++ print_ty et ++ x) in Hsub.
+      apply sub_at_tail in Hsub. change (nlen [97]) with 1 in Hsub. eapply sub_at_prefix. exact Hsub. }
+    rewrite Hchk. cbn [s_bodystr s_sigstr]. rewrite Hm4. rewrite (align_value_pad (nlen body) 4) by tauto. fold p1.
+    replace (nlen body + p1 + 4 =? nlen body + (p1 + 4)) with true by lia. cbn [negb].
+    rewrite Hal, Hpad. unfold act_sig, set_tpos. cbn [w_ct w_ts w_tpos w_exp w_vpos w_lenpos w_start w_etpos w_refs].
+    rewrite <- !app_assoc. destruct (ct =? 97); cbn [negb]; reflexivity.
+Qed.
+
+(* _dbus_type_writer_unrecurse of an array: the length word is back-patched with the number of
+   bytes written since start_pos *)
+Lemma close_array le body sigstr w ts tp lp0 refs' et payload old :
+  nlen old = 4 ->
+  let p1 := pad_amount (nlen body) 4 in
+  let p2 := pad_amount (nlen body + p1 + 4) (spec_align et) in
+  let body3 := body ++ zeros p1 ++ old ++ zeros p2 ++ payload in
+  type_writer_unrecurse le (mkS body3 sigstr) w
+    (mkW 97 ts tp true (nlen body3) (nlen body + p1) (arr_start (nlen body) et) lp0 refs') =
+  Some (mkS (body ++ zeros p1 ++ bytes_of le 4 (nlen payload) ++ zeros p2 ++ payload) sigstr,
+        post_w w (w_tpos w) (nlen body3)).
+Proof.
+  intros Ho p1 p2 body3. unfold type_writer_unrecurse. cbn [w_ct w_ts w_tpos w_exp w_vpos w_lenpos w_start w_etpos w_refs s_bodystr s_sigstr].
+  change (97 =? DBUS_TYPE_STRUCT) with false. change (97 =? DBUS_TYPE_DICT_ENTRY) with false. change (97 =? DBUS_TYPE_ARRAY) with true. cbv iota.
+  assert (Hst : arr_start (nlen body) et = nlen body + p1 + 4 + p2) by reflexivity.
+  assert (Hl : nlen body3 = arr_start (nlen body) et + nlen payload) by (unfold body3; nl; rewrite Hst, Ho; lia).
+  replace (nlen body3 <? arr_start (nlen body) et) with false by lia.
+  replace (nlen body3 - arr_start (nlen body) et) with (nlen payload) by lia.
+  replace (nlen body + p1) with (nlen (body ++ zeros p1)) by (nl; reflexivity).
+  unfold body3. rewrite (app_assoc body (zeros p1)).
+  rewrite (overwrite_mid (body ++ zeros p1) old (bytes_of le 4 (nlen payload)) (zeros p2 ++ payload)) by (rewrite bytes_of_length; exact Ho).
+  rewrite <- !app_assoc. cbn [orb andb]. rewrite !andb_false_r. 
+  unfold set_vpos, post_w. destruct w; reflexivity.
+Qed.
+
+(* writer_recurse_variant: signature length byte, the contained signature, NUL, padding to the
+   contained type's alignment; the sub-writer verifies against the signature in the value string *)
+Lemma open_variant le body sigstr w t x : tygood t = true -> nlen (print_ty t) < 256 ->
+  active (mkS body sigstr) w (118 :: x) -> w_vpos w = nlen body ->
+  let sg := print_ty t in
+  let pv := pad_amount (nlen body + 1 + nlen sg + 1) (spec_align t) in
+  type_writer_recurse le (mkS body sigstr) w KVariant sg =
+  Some (mkS (body ++ [nlen sg] ++ sg ++ [0] ++ zeros pv) (act_sig sigstr w [118]),
+        post_w w (if w_ct w =? 97 then w_tpos w else w_tpos w + 1) (w_vpos w),
+        mkW 118 TsBody (nlen body + 1) true (nlen body + 1 + nlen sg + 1 + pv) (w_lenpos w) (w_start w) (w_etpos w) (w_refs w)).
+Proof.
+  intros G Hlen Ha Hv sg pv. unfold type_writer_recurse. fold sg. unfold sg at 1. rewrite (find_len_print t G). fold sg. rewrite firstn_nlen.
+  cbn [ctype_of]. change DBUS_TYPE_VARIANT with 118.
+  rewrite (init_check_active _ _ 118 _ _ Ha eq_refl). change (118 =? 118) with true. rewrite orb_true_r.
+  destruct (elem_align_print t G) as [Hal Hcases]. fold sg in Hal.
+  unfold writer_recurse_variant. change DBUS_TYPE_VARIANT with 118. rewrite (wov_active _ _ _ _ _ Ha).
+  cbn [w_ct w_ts w_tpos w_exp w_vpos w_lenpos w_start w_etpos w_refs s_bodystr s_sigstr].
+  rewrite Hv. rewrite N.mod_small by exact Hlen.
+  rewrite insert_at_end. rewrite insert_at_end' by (nl; lia). rewrite insert_at_end' by (nl; lia). rewrite Hal.
+  replace (nlen body + 1 + nlen sg + 1) with (nlen (((body ++ [nlen sg]) ++ sg) ++ [0])) by (nl; lia).
+  rewrite pad_body_end by exact Hcases.
+  rewrite <- !app_assoc.
+  assert (E : nlen (body ++ [nlen sg] ++ sg ++ [0]) = nlen body + 1 + nlen sg + 1) by (nl; lia).
+  rewrite E. fold pv. reflexivity.
+Qed.
+
+Lemma close_variant le m w sub : w_ct sub = 118 ->
+  type_writer_unrecurse le m w sub = Some (m, post_w w (w_tpos w) (w_vpos sub)).
+Proof.
+  intros Hc. unfold type_writer_unrecurse. rewrite Hc.
+  change (118 =? DBUS_TYPE_STRUCT) with false. change (118 =? DBUS_TYPE_DICT_ENTRY) with false. change (118 =? DBUS_TYPE_ARRAY) with false. cbv iota.
+  rewrite Hc. change (118 =? DBUS_TYPE_STRUCT) with false. change (118 =? DBUS_TYPE_DICT_ENTRY) with false.
+  cbn [orb]. rewrite andb_false_r. cbn [andb]. unfold set_vpos, post_w. destruct w; reflexivity.
+Qed.
+
+(* ---- alignment is absorbed by the value's own encoding ------------------------------------------- *)
+Lemma pad_idem p a : (a = 1 \/ a = 2 \/ a = 4 \/ a = 8) -> pad_amount (p + pad_amount p a) a = 0.
+Proof. intros [-> | [-> | [-> | -> ]]]; unfold pad_amount; lia. Qed.
+
+Lemma arr_start_aligned pos et : arr_start (pos + pad_amount pos 4) et = arr_start pos et.
+Proof. unfold arr_start. rewrite (pad_idem pos 4) by tauto. rewrite N.add_0_r. reflexivity. Qed.
+
+Lemma wfb_aligned le depth pos v :
+  wfb le depth (pos + pad_amount pos (spec_align (ty_of_val v))) v = wfb le depth pos v.
+Proof.
+  destruct v as [c n|c s|et vs|fs|k x|t x]; cbn [ty_of_val spec_align].
+  - reflexivity.
+  - reflexivity.
+  - rewrite !wfb_arr, arr_start_aligned. reflexivity.
+  - rewrite !wfb_struct. rewrite <- N.add_assoc, (N.add_comm (pad_amount pos 8)), N.add_assoc.
+    rewrite (pad_idem pos 8) by tauto. rewrite N.add_0_r. reflexivity.
+  - rewrite !wfb_dict. rewrite (pad_idem pos 8) by tauto. rewrite N.add_0_r. reflexivity.
+  - rewrite pad_amount_1, N.add_0_r. reflexivity.
+Qed.
+
+Lemma enc_aligned le depth pos v : wfb le depth pos v = true ->
+  zeros (pad_amount pos (spec_align (ty_of_val v))) ++ enc le v (pos + pad_amount pos (spec_align (ty_of_val v))) = enc le v pos.
+Proof.
+  intros H. destruct v as [c n|c s|et vs|fs|k x|t x]; cbn [ty_of_val spec_align].
+  - cbn [wfb] in H. apply andb_true_iff in H. destruct H as [_ H].
+    rewrite !enc_num. destruct (fixed_size c) as [sz|] eqn:Hsz; [|discriminate].
+    assert (Hc : sz = 1 \/ sz = 2 \/ sz = 4 \/ sz = 8) by (destruct (fixed_size_cases c sz Hsz) as [[_ ->]|[[_ ->]|[[_ ->]|[_ ->]]]]; tauto).
+    rewrite (pad_idem pos sz Hc). reflexivity.
+  - cbn [wfb] in H. apply andb_true_iff in H. destruct H as [_ H]. rewrite !enc_str. unfold fixed_size.
+    destruct (c =? 115) eqn:E1; [|destruct (c =? 111) eqn:E2; [|destruct (c =? 103) eqn:E3; [|discriminate]]].
+    + assert (c = 115) by lia. subst c. cbn [N.eqb Pos.eqb orb]. rewrite (pad_idem pos 4) by tauto. reflexivity.
+    + assert (c = 111) by lia. subst c. cbn [N.eqb Pos.eqb orb]. rewrite (pad_idem pos 4) by tauto. reflexivity.
+    + assert (c = 103) by lia. subst c. cbn [N.eqb Pos.eqb orb]. rewrite pad_amount_1. reflexivity.
+  - rewrite !enc_arr. cbv zeta. rewrite (pad_idem pos 4) by tauto. rewrite !N.add_0_r. reflexivity.
+  - rewrite !enc_struct. rewrite (pad_idem pos 8) by tauto. rewrite !N.add_0_r. reflexivity.
+  - rewrite !enc_dict. rewrite (pad_idem pos 8) by tauto. rewrite !N.add_0_r. reflexivity.
+  - rewrite pad_amount_1, N.add_0_r. reflexivity.
+Qed.
+
+(* ---- THE INVARIANT: one value written through a ready iterator -------------------------------------- *)
+(* For any byte order, any body written so far, any iterator on top of any stack of open
+   iterators [rest]: if the iterator is the idle top-level one, or a ready one whose expected
+   signature starts with the value's type, then the call sequence of the value succeeds, appends
+   exactly the specification encoding of the value at that position, and advances the type side
+   by exactly the value's signature. *)
+Definition value_written (le : bool) (v : val) : Prop :=
+  forall sf body sigstr w rest depth tail,
+    head_ok sf (mkS body sigstr) w (print_ty (ty_of_val v)) tail ->
+    w_vpos w = nlen body -> wfb le depth (nlen body) v = true -> tygood (ty_of_val v) = true ->
+    run_ops (ops_of_val v) (mkWS le (mkS body sigstr) sf (w :: rest)) =
+    Some (post_state le sf body sigstr w rest (print_ty (ty_of_val v)) (tpos_after w v) (body ++ enc le v (nlen body))).
+
+Lemma post_state_active le sf body sigstr w rest sg tp body' m x : active m w x ->
+  post_state le sf body sigstr w rest sg tp body' =
+  mkWS le (mkS body' (act_sig sigstr w sg)) sf (post_w w tp (nlen body') :: rest).
+Proof.
+  intros Ha. pose proof (active_has_ts _ _ _ Ha) as H. unfold has_ts in H. unfold post_state.
+  destruct (w_ts w); [discriminate|reflexivity|reflexivity].
+Qed.
+
+Lemma act_sig_nil o w : act_sig o w [] = o.
+Proof. unfold act_sig. destruct (w_exp w); [reflexivity|]. destruct o; [rewrite app_nil_r|]; reflexivity. Qed.
+
+Lemma act_sig_exp o w sg : w_exp w = true -> act_sig o w sg = o.
+Proof. intros E. unfold act_sig. rewrite E. reflexivity. Qed.
+
+Lemma post_w_id w : post_w w (w_tpos w) (w_vpos w) = w.
+Proof. destruct w; reflexivity. Qed.
+
+Lemma tpos_after_plain w v : w_ct w <> 97 -> w_ct w <> 118 -> tpos_after w v = w_tpos w + nlen (print_ty (ty_of_val v)).
+Proof. intros H1 H2. unfold tpos_after. replace (w_ct w =? 97) with false by lia. replace (w_ct w =? 118) with false by lia. reflexivity. Qed.
+
+(* the fields of a struct / dict entry (any writer that is not directly inside an array or variant) *)
+Lemma seq_fields le vs : Forall (value_written le) vs ->
+  forall sf body sigstr w rest depth tail,
+    active (mkS body sigstr) w (flat_map print_ty (map ty_of_val vs) ++ tail) -> w_ct w <> 97 -> w_ct w <> 118 ->
+    w_vpos w = nlen body -> wfsb le vs depth (nlen body) = true -> forallb tygood (map ty_of_val vs) = true ->
+    run_ops (flat_map ops_of_val vs) (mkWS le (mkS body sigstr) sf (w :: rest)) =
+    Some (mkWS le (mkS (body ++ encs le vs (nlen body)) (act_sig sigstr w (flat_map print_ty (map ty_of_val vs)))) sf
+               (post_w w (w_tpos w + nlen (flat_map print_ty (map ty_of_val vs))) (nlen (body ++ encs le vs (nlen body))) :: rest)).
+Proof.
+  induction 1 as [|x r Hx Hr IH]; intros sf body sigstr w rest depth tail Ha H97 H118 Hv Hw Hg.
+  - cbn [flat_map map encs run_ops]. rewrite app_nil_r, act_sig_nil. change (nlen (@nil N)) with 0. rewrite N.add_0_r, <- Hv, post_w_id. reflexivity.
+  - cbn [wfsb] in Hw. apply andb_true_iff in Hw. destruct Hw as [Hwx Hwr].
+    cbn [map forallb] in Hg. apply andb_true_iff in Hg. destruct Hg as [Hgx Hgr].
+    cbn [flat_map map] in *. rewrite <- app_assoc in Ha.
+    rewrite run_ops_app.
+    rewrite (Hx sf body sigstr w rest depth _ (or_intror Ha) Hv Hwx Hgx).
+    rewrite (post_state_active _ _ _ _ _ _ _ _ _ _ _ Ha), (tpos_after_plain w x H97 H118).
+    pose proof (active_next body sigstr w _ _ (enc le x (nlen body)) (nlen (body ++ enc le x (nlen body))) Ha H97) as Ha2.
+    rewrite (IH sf _ _ _ rest depth tail Ha2 H97 H118 eq_refl) by (try exact Hgr; rewrite nlen_app; exact Hwr).
+    cbn [encs]. cbv zeta. rewrite act_sig_app by reflexivity. rewrite !nlen_app.
+    unfold post_w. cbn [w_ct w_ts w_tpos w_exp w_vpos w_lenpos w_start w_etpos w_refs]. rewrite <- ?app_assoc, ?nlen_app.
+    rewrite ?N.add_assoc. reflexivity.
+Qed.
+
+(* the elements of an array: type_pos stays on the element type *)
+Lemma seq_elems le et vs : Forall (value_written le) vs ->
+  forall sf body sigstr w rest depth,
+    active (mkS body sigstr) w (print_ty et) -> w_ct w = 97 ->
+    w_vpos w = nlen body -> wfsb le vs depth (nlen body) = true ->
+    forallb (fun x => ty_eqb (ty_of_val x) et) vs = true -> tygood et = true ->
+    run_ops (flat_map ops_of_val vs) (mkWS le (mkS body sigstr) sf (w :: rest)) =
+    Some (mkWS le (mkS (body ++ encs le vs (nlen body)) sigstr) sf
+               (post_w w (w_tpos w) (nlen (body ++ encs le vs (nlen body))) :: rest)).
+Proof.
+  induction 1 as [|x r Hx Hr IH]; intros sf body sigstr w rest depth Ha H97 Hv Hw Ht Hg.
+  - cbn [flat_map encs run_ops]. rewrite app_nil_r, <- Hv, post_w_id. reflexivity.
+  - cbn [wfsb] in Hw. apply andb_true_iff in Hw. destruct Hw as [Hwx Hwr].
+    cbn [forallb] in Ht. apply andb_true_iff in Ht. destruct Ht as [Htx Htr]. apply ty_eqb_eq in Htx.
+    assert (He : w_exp w = true).
+    { destruct Ha as [_ [(_ & _ & _ & Hc)|(He & _)]]; [rewrite H97 in Hc; destruct Hc as [?|[?|?]]; discriminate|exact He]. }
+    cbn [flat_map]. rewrite run_ops_app.
+    assert (Ha1 : active (mkS body sigstr) w (print_ty (ty_of_val x) ++ [])) by (rewrite Htx, app_nil_r; exact Ha).
+    rewrite (Hx sf body sigstr w rest depth [] (or_intror Ha1) Hv Hwx) by (rewrite Htx; exact Hg).
+    rewrite (post_state_active _ _ _ _ _ _ _ _ _ _ _ Ha). rewrite (act_sig_exp _ _ _ He).
+    unfold tpos_after. rewrite H97. change (97 =? 97) with true. cbv iota.
+    pose proof (active_grow body sigstr w _ (enc le x (nlen body)) (nlen (body ++ enc le x (nlen body))) Ha) as Ha2.
+    rewrite (IH sf _ _ _ rest depth Ha2 H97 eq_refl) by (try assumption; rewrite nlen_app; exact Hwr).
+    cbn [encs]. cbv zeta. rewrite !nlen_app.
+    unfold post_w. cbn [w_ct w_ts w_tpos w_exp w_vpos w_lenpos w_start w_etpos w_refs]. rewrite <- ?app_assoc, ?nlen_app.
+    rewrite ?N.add_assoc. reflexivity.
+Qed.
+
+Lemma tpos_sd m w sg v : active m w sg -> is_sd v = true ->
+  (if (w_ct w =? 114) || (w_ct w =? 101) || (w_ct w =? 0) then w_tpos w + nlen (print_ty (ty_of_val v)) else w_tpos w) = tpos_after w v.
+Proof.
+  intros [_ [(_ & _ & _ & Hc)|(_ & _ & _ & Hc & _)]] Hsd; unfold tpos_after; rewrite Hsd.
+  - destruct Hc as [-> |[-> | ->]]; reflexivity.
+  - destruct Hc as [-> |[-> |[-> | ->]]]; reflexivity.
+Qed.
+
+Lemma value_written_basic le v : is_basic_val' v -> value_written le v.
+Proof.
+  intros Hb sf body sigstr w rest depth tail Hh Hv Hw Hg.
+  destruct (sig_wrap le sf body sigstr w rest _ tail Hh) as (sigstr1 & w1 & Ho & Ha & Hv1 & Hc).
+  assert (E : ops_of_val v = [WBasic v]) by (destruct v; try contradiction; reflexivity). rewrite E.
+  destruct (Hc (body ++ enc le v (nlen body)) v) as (sf' & m' & w' & Hcl & Heq).
+  rewrite <- Heq. eapply run_basic; [exact Ho| |exact Hcl].
+  apply (basic_active le body sigstr1 w1 v depth tail Hb Hw); [congruence|exact Ha].
+Qed.
+
+(* struct and dict entry share the proof: [fields] are the values written between open and close *)
+Lemma value_written_sd le v k ct' bc cc fields :
+  ((k = KStruct /\ ct' = 114 /\ bc = 40 /\ cc = 41) \/ (k = KDict /\ ct' = 101 /\ bc = 123 /\ cc = 125)) ->
+  is_sd v = true ->
+  ops_of_val v = WOpen k [] :: flat_map ops_of_val fields ++ [WClose] ->
+  print_ty (ty_of_val v) = bc :: flat_map print_ty (map ty_of_val fields) ++ [cc] ->
+  (forall pos, enc le v pos = zeros (pad_amount pos 8) ++ encs le fields (pos + pad_amount pos 8)) ->
+  (forall depth pos, wfb le depth pos v = true -> wfsb le fields (depth + 1) (pos + pad_amount pos 8) = true) ->
+  (tygood (ty_of_val v) = true -> forallb tygood (map ty_of_val fields) = true) ->
+  Forall (value_written le) fields -> value_written le v.
+Proof.
+  intros Hk Hsd Hops Hprint Henc Hwf Hgood IH sf body sigstr w rest depth tail Hh Hv Hw Hg.
+  destruct (sig_wrap le sf body sigstr w rest _ tail Hh) as (sigstr1 & w1 & Ho & Ha & Hv1 & Hc).
+  rewrite Hv in Hv1. rewrite Hprint in Ha. cbn [app] in Ha. rewrite <- app_assoc in Ha.
+  set (flat := flat_map print_ty (map ty_of_val fields)) in *.
+  set (p8 := pad_amount (nlen body) 8).
+  assert (Hk' : (k = KStruct /\ ct' = 114 /\ bc = 40) \/ (k = KDict /\ ct' = 101 /\ bc = 123)) by tauto.
+  assert (Hc' : ct' = 114 \/ ct' = 101) by tauto.
+  pose proof (open_sd le body sigstr1 w1 k ct' bc _ Hk' Ha Hv1) as Hopen. fold p8 in Hopen.
+  (* the sub-writer is ready for the fields, then for the closing code *)
+  pose proof (active_next body sigstr1 _ [bc] _ (zeros p8) (nlen body + p8) (active_sub _ _ _ ct' Ha Hc')) as Hsub.
+  cbn [w_ct] in Hsub. specialize (Hsub ltac:(destruct Hc'; lia)).
+  change (nlen [bc]) with 1 in Hsub.
+  unfold post_w in Hsub. cbn [w_ct w_ts w_tpos w_exp w_vpos w_lenpos w_start w_etpos w_refs] in Hsub.
+  match type of Hsub with active ?m ?s _ => set (m2 := m) in *; set (sub := s) in * end.
+  assert (Hn2 : nlen (body ++ zeros p8) = nlen body + p8) by (nl; reflexivity).
+  assert (Hrun := seq_fields le fields IH sf (body ++ zeros p8) _ sub (w1 :: rest) (depth + 1) ([cc] ++ tail) Hsub).
+  cbn [w_ct w_vpos sub] in Hrun. specialize (Hrun ltac:(destruct Hc'; lia) ltac:(destruct Hc'; lia) (eq_sym Hn2)).
+  rewrite Hn2 in Hrun. specialize (Hrun (Hwf _ _ Hw) (Hgood Hg)). fold flat in Hrun.
+  pose proof (active_next _ _ sub flat ([cc] ++ tail) (encs le fields (nlen body + p8))
+                (nlen ((body ++ zeros p8) ++ encs le fields (nlen body + p8))) Hsub ltac:(cbn; destruct Hc'; lia)) as Hsub'.
+  cbn [app] in Hsub'.
+  pose proof (fun Hk2 Hct => close_sd le _ _ w1 _ ct' cc tail Hk2 Hct (active_has_ts _ _ _ Ha) Hsub') as Hclose.
+  specialize (Hclose ltac:(tauto) eq_refl).
+  destruct (Hc (body ++ enc le v (nlen body)) v) as (sf' & m' & w' & Hcl & Heq).
+  rewrite <- Heq, Hops.
+  eapply run_container; [exact Ho|exact Hopen|exact Hrun|exact Hclose|].
+  rewrite <- Hcl. f_equal.
+  - f_equal.
+    + rewrite Henc. fold p8. rewrite <- app_assoc. reflexivity.
+    + rewrite !act_sig_app by reflexivity. rewrite Hprint. reflexivity.
+  - rewrite <- (tpos_sd _ _ _ v Ha Hsd). rewrite Hprint. fold flat.
+    unfold post_w. cbn [w_ct w_ts w_tpos w_exp w_vpos w_lenpos w_start w_etpos w_refs sub].
+    rewrite Henc. fold p8. rewrite <- !app_assoc.
+    replace (w_tpos w1 + 1 + nlen flat + 1) with (w_tpos w1 + nlen (bc :: flat ++ [cc])) by (nl; lia).
+    reflexivity.
+Qed.
+
+(* the sub-writer of an array is ready for the element type *)
+Lemma active_array_sub body sigstr w p x y vp lp sp : active (mkS body sigstr) w (97 :: p ++ x) ->
+  active (mkS (body ++ y) (act_sig sigstr w (97 :: p)))
+         (mkW 97 (w_ts w) (w_tpos w + 1) true vp lp sp (w_tpos w + 1) (w_refs w)) p.
+Proof.
+  intros [Hr [(He & Ht & (s & Hs & Hp) & Hc)|(He & Ht & (ts & Hts & Hsub) & Hc & Het)]]; (split; [exact Hr|]); right;
+    cbn [w_ct w_ts w_tpos w_exp w_etpos]; (repeat split; auto; try tauto).
+  - rewrite Ht. discriminate.
+  - cbn [s_sigstr] in Hs. subst sigstr. rewrite Ht. unfold act_sig. rewrite He. cbn [ts_get s_sigstr].
+    exists (s ++ 97 :: p). split; [reflexivity|]. rewrite Hp.
+    change (s ++ 97 :: p) with (s ++ [97] ++ p). rewrite app_assoc. rewrite <- (app_nil_r ((s ++ [97]) ++ p)), <- app_assoc.
+    replace (nlen s + 1) with (nlen (s ++ [97])) by (nl; reflexivity). apply sub_at_here.
+  - unfold act_sig. rewrite He. change (97 :: p ++ x) with ([97] ++ p ++ x) in Hsub.
+    apply sub_at_tail in Hsub. change (nlen [97]) with 1 in Hsub. apply sub_at_prefix in Hsub.
+    destruct (w_ts w) eqn:E; [congruence| |]; cbn [ts_get s_sigstr s_bodystr] in *.
+    + exists ts. auto.
+    + injection Hts as <-. exists (body ++ y). split; [reflexivity|]. apply sub_at_app. exact Hsub.
+Qed.
+
+Lemma tpos_arr w et vs : (if w_ct w =? 97 then w_tpos w else w_tpos w + (1 + nlen (print_ty et))) = tpos_after w (VArr et vs).
+Proof.
+  unfold tpos_after. cbn [is_sd ty_of_val print_ty]. rewrite andb_false_r, nlen_cons.
+  destruct (w_ct w =? 97); [reflexivity|lia].
+Qed.
+
+Lemma value_written_arr le et vs : Forall (value_written le) vs -> value_written le (VArr et vs).
+Proof.
+  intros IH sf body sigstr w rest depth tail Hh Hv Hw Hg.
+  destruct (sig_wrap le sf body sigstr w rest _ tail Hh) as (sigstr1 & w1 & Ho & Ha & Hv1 & Hc).
+  rewrite Hv in Hv1. cbn [ty_of_val print_ty tygood app] in Ha, Hg.
+  rewrite wfb_arr in Hw. apply andb_true_iff in Hw. destruct Hw as [_ Hw]. apply andb_true_iff in Hw. destruct Hw as [Hw Hws].
+  apply andb_true_iff in Hw. destruct Hw as [Hty _].
+  set (p1 := pad_amount (nlen body) 4). set (p2 := pad_amount (nlen body + p1 + 4) (spec_align et)).
+  pose proof (open_array le body sigstr1 w1 et tail Hg Ha Hv1) as Hopen. fold p1 p2 in Hopen.
+  set (body2 := body ++ zeros p1 ++ bytes_of le 4 0 ++ zeros p2) in *.
+  assert (Hn2 : nlen body2 = arr_start (nlen body) et) by (unfold body2, arr_start; fold p1 p2; nl; change (N.of_nat 4) with 4; lia).
+  pose proof (active_array_sub body sigstr1 w1 (print_ty et) tail (zeros p1 ++ bytes_of le 4 0 ++ zeros p2)
+                (arr_start (nlen body) et) (nlen body + p1) (arr_start (nlen body) et) Ha) as Hsub.
+  fold body2 in Hsub.
+  pose proof (seq_elems le et vs IH sf body2 _ _ (post_w w1 (if w_ct w1 =? 97 then w_tpos w1 else w_tpos w1 + (1 + nlen (print_ty et))) (w_vpos w1) :: rest)
+                (depth + 1) Hsub eq_refl) as Hrun.
+  cbn [w_vpos w_tpos] in Hrun. rewrite Hn2 in Hrun. specialize (Hrun eq_refl Hws Hty Hg).
+  set (payload := encs le vs (arr_start (nlen body) et)) in *.
+  pose proof (close_array le body (act_sig sigstr1 w1 (97 :: print_ty et))
+                (post_w w1 (if w_ct w1 =? 97 then w_tpos w1 else w_tpos w1 + (1 + nlen (print_ty et))) (w_vpos w1))
+                (w_ts w1) (w_tpos w1 + 1) (w_tpos w1 + 1) (w_refs w1) et payload (bytes_of le 4 0) (bytes_of_length le 4 0)) as Hclose.
+  cbv zeta in Hclose. fold p1 p2 in Hclose.
+  destruct (Hc (body ++ enc le (VArr et vs) (nlen body)) (VArr et vs)) as (sf' & m' & w' & Hcl & Heq).
+  rewrite <- Heq. cbn [ops_of_val].
+  eapply run_container; [exact Ho|exact Hopen| | |].
+  - unfold post_w in Hrun. cbn [w_ct w_ts w_tpos w_exp w_vpos w_lenpos w_start w_etpos w_refs] in Hrun.
+    unfold body2 in Hrun. rewrite <- !app_assoc in Hrun. exact Hrun.
+  - exact Hclose.
+  - rewrite <- Hcl. cbn [ty_of_val print_ty]. rewrite enc_arr. cbv zeta. fold p1 p2.
+    change (nlen body + p1 + 4 + p2) with (arr_start (nlen body) et). fold payload.
+    f_equal. unfold post_w. cbn [w_ct w_ts w_tpos w_exp w_vpos w_lenpos w_start w_etpos w_refs].
+    rewrite (tpos_arr w1 et vs). f_equal. nl. reflexivity.
+Qed.
+
+Lemma sig_roundtrips_good t : sig_roundtrips t = true -> tygood t = true /\ nlen (print_ty t) < 256.
+Proof.
+  unfold sig_roundtrips. intros H. apply andb_true_iff in H. destruct H as [H H3]. apply andb_true_iff in H. destruct H as [H1 H2].
+  split; [|lia].
+  destruct (parse_sig (print_ty t)) as [[|t' [|? ?]]|] eqn:P; try discriminate.
+  apply ty_eqb_eq in H3. subst t'. pose proof (parse_sig_tygood _ _ P) as G. cbn [forallb] in G. rewrite andb_true_r in G. exact G.
+Qed.
+
+Lemma tpos_var w t x : (if w_ct w =? 97 then w_tpos w else w_tpos w + 1) = tpos_after w (VVar t x).
+Proof. unfold tpos_after. cbn [is_sd ty_of_val print_ty]. rewrite andb_false_r. reflexivity. Qed.
+
+Lemma value_written_var le t x : value_written le x -> value_written le (VVar t x).
+Proof.
+  intros IH sf body sigstr w rest depth tail Hh Hv Hw Hg.
+  destruct (sig_wrap le sf body sigstr w rest _ tail Hh) as (sigstr1 & w1 & Ho & Ha & Hv1 & Hc).
+  rewrite Hv in Hv1. cbn [ty_of_val print_ty app] in Ha.
+  cbn [wfb] in Hw. apply andb_true_iff in Hw. destruct Hw as [_ Hw]. apply andb_true_iff in Hw. destruct Hw as [Hw Hwx].
+  apply andb_true_iff in Hw. destruct Hw as [Hty Hrt]. apply ty_eqb_eq in Hty.
+  destruct (sig_roundtrips_good t Hrt) as [Gt Hlen].
+  set (sg := print_ty t) in *. set (pv := pad_amount (nlen body + 1 + nlen sg + 1) (spec_align t)).
+  pose proof (open_variant le body sigstr1 w1 t tail Gt Hlen Ha Hv1) as Hopen. cbv zeta in Hopen. fold sg pv in Hopen.
+  set (body2 := body ++ [nlen sg] ++ sg ++ [0] ++ zeros pv) in *.
+  assert (Hn2 : nlen body2 = nlen body + 1 + nlen sg + 1 + pv) by (unfold body2; nl; lia).
+  set (sub := mkW 118 TsBody (nlen body + 1) true (nlen body + 1 + nlen sg + 1 + pv) (w_lenpos w1) (w_start w1) (w_etpos w1) (w_refs w1)) in *.
+  set (w2 := post_w w1 (if w_ct w1 =? 97 then w_tpos w1 else w_tpos w1 + 1) (w_vpos w1)) in *.
+  assert (Hsub : active (mkS body2 (act_sig sigstr1 w1 [118])) sub (print_ty (ty_of_val x) ++ [])).
+  { split; [destruct Ha as [Hr _]; exact Hr|]. right. cbn [sub w_ct w_ts w_tpos w_exp w_etpos ts_get s_bodystr].
+    repeat split; auto; try discriminate. exists body2. split; [reflexivity|].
+    rewrite Hty, app_nil_r. fold sg. unfold body2. change (body ++ [nlen sg] ++ sg ++ [0] ++ zeros pv) with (body ++ [nlen sg] ++ sg ++ ([0] ++ zeros pv)).
+    rewrite (app_assoc body). replace (nlen body + 1) with (nlen (body ++ [nlen sg])) by (nl; reflexivity). apply sub_at_here. }
+  assert (Hwx2 : wfb le (depth + 1) (nlen body2) x = true).
+  { rewrite Hn2. unfold pv. rewrite <- Hty. rewrite wfb_aligned. replace (nlen body + 1 + nlen sg + 1) with (nlen body + (nlen sg + 2)) by lia. exact Hwx. }
+  pose proof (IH sf body2 (act_sig sigstr1 w1 [118]) sub (w2 :: rest) (depth + 1) [] (or_intror Hsub) (eq_sym Hn2) Hwx2 ltac:(rewrite Hty; exact Gt)) as Hrun.
+  rewrite (post_state_active _ _ _ _ _ _ _ _ _ _ _ Hsub) in Hrun. rewrite (act_sig_exp _ sub _ eq_refl) in Hrun.
+  pose proof (close_variant le (mkS (body2 ++ enc le x (nlen body2)) (act_sig sigstr1 w1 [118])) w2
+                (post_w sub (tpos_after sub x) (nlen (body2 ++ enc le x (nlen body2)))) eq_refl) as Hclose.
+  destruct (Hc (body ++ enc le (VVar t x) (nlen body)) (VVar t x)) as (sf' & m' & w' & Hcl & Heq).
+  rewrite <- Heq. cbn [ops_of_val].
+  eapply run_container; [exact Ho|exact Hopen|exact Hrun|exact Hclose|].
+  rewrite <- Hcl. cbn [ty_of_val print_ty].
+  assert (Hb : body2 ++ enc le x (nlen body2) = body ++ enc le (VVar t x) (nlen body)).
+  { rewrite Hn2. rewrite enc_var. cbv zeta. fold sg. unfold body2. rewrite <- !app_assoc. cbn [app]. do 2 f_equal. rewrite <- !app_assoc. f_equal. cbn [app]. f_equal.
+    unfold pv. rewrite <- Hty.
+    replace (nlen body + nlen (nlen sg :: sg ++ [0])) with (nlen body + 1 + nlen sg + 1) by (nl; lia).
+    apply (enc_aligned le (depth + 1)). rewrite <- (wfb_aligned le (depth + 1)). rewrite Hty. fold pv. rewrite <- Hn2. exact Hwx2. }
+  rewrite Hb. f_equal. unfold w2, post_w. cbn [w_ct w_ts w_tpos w_exp w_vpos w_lenpos w_start w_etpos w_refs].
+  rewrite (tpos_var w1 t x). reflexivity.
+Qed.
+
+(* ---- every value ------------------------------------------------------------------------------------ *)
+Theorem value_written_all le : forall v, value_written le v.
+Proof.
+  induction v as [c n|c s|et vs IH|fs IH|k x IHk IHx|t x IHx] using val_ind'.
+  - apply value_written_basic. exact I.
+  - apply value_written_basic. exact I.
+  - apply value_written_arr. exact IH.
+  - apply (value_written_sd le (VStruct fs) KStruct 114 40 41 fs); try reflexivity; try exact IH.
+    + left. repeat split.
+    + intros pos. apply enc_struct.
+    + intros depth pos H. rewrite wfb_struct in H. apply andb_true_iff in H. destruct H as [_ H]. apply andb_true_iff in H. exact (proj2 H).
+    + cbn [ty_of_val tygood]. intros H. apply andb_true_iff in H. exact (proj2 H).
+  - intros sf body sigstr w rest depth tail Hh Hv Hw Hg.
+    assert (Hkb : is_basic_val k = true).
+    { rewrite wfb_dict in Hw. apply andb_true_iff in Hw. destruct Hw as [_ Hw]. apply andb_true_iff in Hw. exact (proj1 Hw). }
+    refine (value_written_sd le (VDictE k x) KDict 101 123 125 [k; x] _ eq_refl _ _ _ _ _ _ sf body sigstr w rest depth tail Hh Hv Hw Hg).
+    + right. repeat split.
+    + cbn [ops_of_val flat_map]. rewrite app_nil_r, <- app_assoc. reflexivity.
+    + destruct k; try discriminate; cbn [ty_of_val print_ty map flat_map app]; rewrite app_nil_r; reflexivity.
+    + intros pos. apply enc_dict.
+    + intros d pos H. rewrite wfb_dict in H. apply andb_true_iff in H. destruct H as [_ H]. apply andb_true_iff in H. exact (proj2 H).
+    + cbn [ty_of_val tygood map forallb]. intros H. apply andb_true_iff in H. destruct H as [H1 H2]. rewrite H2, andb_true_r.
+      destruct k; try discriminate; exact H1.
+    + constructor; [exact IHk|constructor; [exact IHx|constructor]].
+  - apply value_written_var. exact IHx.
+Qed.
+
+(* ---- a whole body through the top-level iterator ------------------------------------------------------ *)
+Lemma seq_top le : forall vs sf body vpos lp st et rest,
+  vpos = nlen body -> wfsb le vs 0 (nlen body) = true -> forallb tygood (map ty_of_val vs) = true ->
+  nlen (sf ++ flat_map print_ty (map ty_of_val vs)) <= 255 ->
+  run_ops (ops_of_vals vs) (mkWS le (mkS body None) sf (mkW 0 TsNone 0 false vpos lp st et 0 :: rest)) =
+  Some (mkWS le (mkS (body ++ encs le vs (nlen body)) None) (sf ++ flat_map print_ty (map ty_of_val vs))
+             (mkW 0 TsNone 0 false (nlen (body ++ encs le vs (nlen body))) lp st et 0 :: rest)).
+Proof.
+  induction vs as [|x r IH]; intros sf body vpos lp st et rest Hv Hw Hg Hl.
+  - cbn [ops_of_vals flat_map map encs run_ops]. rewrite !app_nil_r, Hv. reflexivity.
+  - cbn [wfsb] in Hw. apply andb_true_iff in Hw. destruct Hw as [Hwx Hwr].
+    cbn [map forallb] in Hg. apply andb_true_iff in Hg. destruct Hg as [Hgx Hgr].
+    cbn [map flat_map] in Hl. unfold ops_of_vals. cbn [flat_map map]. rewrite run_ops_app.
+    assert (Hh : head_ok sf (mkS body None) (mkW 0 TsNone 0 false vpos lp st et 0) (print_ty (ty_of_val x)) []).
+    { left. split; [repeat split|]. rewrite !nlen_app in *. lia. }
+    rewrite (value_written_all le x sf body None _ rest 0 [] Hh Hv Hwx Hgx).
+    unfold post_state. cbn [w_ct w_ts w_tpos w_exp w_vpos w_lenpos w_start w_etpos w_refs].
+    fold (ops_of_vals r).
+    assert (Hwr' : wfsb le r 0 (nlen (body ++ enc le x (nlen body))) = true) by (rewrite nlen_app; exact Hwr).
+    assert (Hl' : nlen ((sf ++ print_ty (ty_of_val x)) ++ flat_map print_ty (map ty_of_val r)) <= 255) by (rewrite <- app_assoc; exact Hl).
+    rewrite (IH (sf ++ print_ty (ty_of_val x)) _ _ lp st et rest eq_refl Hwr' Hgr Hl').
+    cbn [encs]. cbv zeta. rewrite !nlen_app, <- !app_assoc, ?N.add_assoc. reflexivity.
+Qed.
+
+(* appending to a message whose body is [body0] with signature [sg0] *)
+Theorem writer_correct_from le body0 sg0 vs :
+  wfsb le vs 0 (nlen body0) = true -> forallb tygood (map ty_of_val vs) = true ->
+  nlen (sg0 ++ flat_map print_ty (map ty_of_val vs)) <= 255 ->
+  run_writer_from le body0 sg0 (ops_of_vals vs) =
+  Some (body0 ++ encs le vs (nlen body0), sg0 ++ flat_map print_ty (map ty_of_val vs)).
+Proof.
+  intros Hw Hg Hl. unfold run_writer_from, winit. rewrite (seq_top le vs sg0 body0 _ 0 0 0 [] eq_refl Hw Hg Hl). reflexivity.
+Qed.
+
+(* THE RESULT: the writer produces the specification encoding and the types' signature *)
+Theorem writer_correct le vs :
+  wfsb le vs 0 0 = true -> forallb tygood (map ty_of_val vs) = true ->
+  nlen (flat_map print_ty (map ty_of_val vs)) <= 255 ->
+  run_writer le (ops_of_vals vs) = Some (encs le vs 0, flat_map print_ty (map ty_of_val vs)).
+Proof. intros Hw Hg Hl. exact (writer_correct_from le [] [] vs Hw Hg Hl). Qed.
+
+(* the writer never fails on the call sequence of well-formed values, and closes every container *)
+Theorem writer_never_fails le vs :
+  wfsb le vs 0 0 = true -> forallb tygood (map ty_of_val vs) = true ->
+  nlen (flat_map print_ty (map ty_of_val vs)) <= 255 ->
+  exists st, run_ops (ops_of_vals vs) (winit le [] []) = Some st /\ length (ws_iters st) = 1%nat.
+Proof.
+  intros Hw Hg Hl. unfold winit. rewrite (seq_top le vs [] [] _ 0 0 0 [] eq_refl Hw Hg Hl). eexists. split; reflexivity.
+Qed.
+
+(* for the messages of C02_roundtrip: the two extra premises follow from wf_msg *)
+Lemma sig_of_vals_flat vs : sig_of_vals vs = flat_map print_ty (map ty_of_val vs).
+Proof. unfold sig_of_vals. induction vs as [|x r IH]; [reflexivity|]. cbn [flat_map map]. rewrite IH. reflexivity. Qed.
+
+Theorem writer_correct_msg m : wf_msg m = true ->
+  run_writer (s_le m) (ops_of_vals (s_body m)) = Some (encs (s_le m) (s_body m) 0, s_sig m).
+Proof.
+  intros H. unfold wf_msg in H. cbv zeta in H.
+  repeat (apply andb_true_iff in H; destruct H as [H ?]).
+  match goal with Hs : spec_signature (s_sig m) = true |- _ => pose proof (spec_signature_len _ Hs) as Hl end.
+  destruct (parse_sig (s_sig m)) as [tys|] eqn:P; [|discriminate].
+  match goal with Ht : _ tys (map ty_of_val (s_body m)) = true |- _ => apply tys_eq_list in Ht; subst tys end.
+  destruct (parse_sig_sound _ _ P) as [Es _]. pose proof (parse_sig_tygood _ _ P) as Hg.
+  rewrite Es in Hl. rewrite Es. apply writer_correct; [assumption|exact Hg|exact Hl].
+Qed.
+
+(* ---- arrays: the length word, empty arrays -------------------------------------------------------------- *)
+(* an array written through any ready iterator inside any stack of open containers: the 4 bytes at
+   the aligned length position are the byte count of the encoded elements, the padding to the
+   element alignment is present whether or not elements follow *)
+Theorem writer_array_length_word le et vs sf body sigstr w rest depth tail :
+  head_ok sf (mkS body sigstr) w (print_ty (TArray et)) tail -> w_vpos w = nlen body ->
+  wfb le depth (nlen body) (VArr et vs) = true -> tygood et = true ->
+  let p1 := pad_amount (nlen body) 4 in
+  let start := arr_start (nlen body) et in
+  exists st', run_ops (ops_of_val (VArr et vs)) (mkWS le (mkS body sigstr) sf (w :: rest)) = Some st' /\
+    s_bodystr (ws_strs st') =
+      body ++ zeros p1 ++ bytes_of le 4 (nlen (encs le vs start)) ++ zeros (pad_amount (nlen body + p1 + 4) (spec_align et)) ++ encs le vs start /\
+    exists w', ws_iters st' = w' :: rest.
+Proof.
+  intros Hh Hv Hw Hg p1 start.
+  rewrite (value_written_all le (VArr et vs) sf body sigstr w rest depth tail Hh Hv Hw Hg).
+  eexists. split; [reflexivity|]. rewrite enc_arr. cbv zeta. unfold post_state.
+  destruct (w_ts w); (split; [reflexivity|eexists; reflexivity]).
+Qed.
+
+Corollary writer_empty_array le et body0 sg0 : tygood et = true -> nlen (sg0 ++ 97 :: print_ty et) <= 255 ->
+  run_writer_from le body0 sg0 (ops_of_val (VArr et [])) =
+  Some (body0 ++ zeros (pad_amount (nlen body0) 4) ++ bytes_of le 4 0 ++
+        zeros (pad_amount (nlen body0 + pad_amount (nlen body0) 4 + 4) (spec_align et)), sg0 ++ 97 :: print_ty et).
+Proof.
+  intros Hg Hl. pose proof (writer_correct_from le body0 sg0 [VArr et []]) as H.
+  unfold ops_of_vals in H. cbn [flat_map map ty_of_val print_ty encs] in H. rewrite !app_nil_r in H.
+  rewrite H; [|reflexivity|cbn [forallb tygood]; rewrite Hg; reflexivity|exact Hl].
+  rewrite enc_arr. cbv zeta. cbn [encs]. rewrite !app_nil_r. reflexivity.
+Qed.
+
+(* ---- non-vacuity and boundary examples (vm_compute) ------------------------------------------------------ *)
+Definition wchk (le : bool) (vs : list val) : bool :=
+  wfsb le vs 0 0 && forallb tygood (map ty_of_val vs) && (nlen (flat_map print_ty (map ty_of_val vs)) <=? 255) &&
+  match run_writer le (ops_of_vals vs) with
+  | Some (b, s) => bytes_eqb b (encs le vs 0) && bytes_eqb s (flat_map print_ty (map ty_of_val vs))
+  | None => false
+  end.
+
+(* nested containers: struct of (byte, array of dict entries string -> variant of array of int32, object path, double) *)
+Definition wex_nested : val :=
+  VStruct [VNum 121 5; VArr (TDict 115 TVariant) [VDictE (VStr 115 [107]) (VVar (TArray (TBasic 105)) (VArr (TBasic 105) [VNum 105 1; VNum 105 2]))];
+           VStr 111 [47; 97]; VNum 100 4609434218613702656].
+Example wex_nested_le : wchk true [wex_nested; wex_nested] = true. Proof. vm_compute. reflexivity. Qed.
+Example wex_nested_be : wchk false [VNum 121 1; wex_nested] = true. Proof. vm_compute. reflexivity. Qed.
+
+(* empty arrays of 8-aligned elements at offsets 1..: 7 bytes of padding after the length although nothing follows;
+   arrays of arrays with empty inner arrays *)
+Definition wex_empty8 : list val :=
+  [VNum 121 1; VArr (TBasic 120) []; VNum 121 2; VArr (TStruct [TBasic 121; TBasic 120]) [];
+   VArr (TArray (TStruct [TBasic 121; TBasic 120])) [VArr (TStruct [TBasic 121; TBasic 120]) []; VArr (TStruct [TBasic 121; TBasic 120]) [VStruct [VNum 121 1; VNum 120 7]]];
+   VArr (TDict 121 (TBasic 116)) []].
+Example wex_empty8_ok : wchk true wex_empty8 = true. Proof. vm_compute. reflexivity. Qed.
+Example wex_empty8_bytes : run_writer true (ops_of_vals [VNum 121 1; VArr (TBasic 120) []]) = Some ([1; 0;0;0; 0;0;0;0], [121; 97; 120]).
+Proof. vm_compute. reflexivity. Qed.
+
+(* variants of arrays (the expected element type is read from the value string), variants in variants *)
+Definition wex_var : list val :=
+  [VVar (TArray (TArray (TBasic 115))) (VArr (TArray (TBasic 115)) [VArr (TBasic 115) [VStr 115 [65]; VStr 115 []]; VArr (TBasic 115) []]);
+   VVar TVariant (VVar (TArray (TBasic 120)) (VArr (TBasic 120) [])); VVar (TStruct [TBasic 121; TBasic 120]) (VStruct [VNum 121 1; VNum 120 2])].
+Example wex_var_ok : wchk true wex_var = true /\ wchk false wex_var = true. Proof. vm_compute. split; reflexivity. Qed.
+
+(* API misuse is [None] *)
+Example wex_close_nothing_open : run_writer true [WClose] = None. Proof. reflexivity. Qed.
+Example wex_wrong_basic_in_array : run_writer true [WOpen KArray [105]; WBasic (VNum 120 5); WClose] = None. Proof. vm_compute. reflexivity. Qed.
+Example wex_wrong_child_array : run_writer true [WOpen KArray [97; 105]; WOpen KArray [120]; WClose; WClose] = None. Proof. vm_compute. reflexivity. Qed.
+Example wex_second_value_in_variant : run_writer true [WOpen KVariant [105]; WBasic (VNum 105 1); WBasic (VNum 105 2); WClose] = None.
+Proof. vm_compute. reflexivity. Qed.
+Example wex_unclosed : run_writer true [WOpen KStruct []; WBasic (VNum 105 1)] = None. Proof. vm_compute. reflexivity. Qed.
+
+(* the third premise of [writer_correct] is necessary: the 256th top-level byte makes the SIGNATURE field
+   257 > 255 bytes long and _dbus_header_set_field_basic asserts (replayed on the real code: notes/C02_writer.md) *)
+Example writer_signature_limit :
+  wfsb true (repeat (VNum 121 0) 256) 0 0 = true /\ forallb tygood (map ty_of_val (repeat (VNum 121 0) 256)) = true /\
+  run_writer true (ops_of_vals (repeat (VNum 121 0) 255)) = Some (repeat 0 255, repeat 121 255) /\
+  run_writer true (ops_of_vals (repeat (VNum 121 0) 256)) = None.
+Proof. vm_compute. repeat split; reflexivity. Qed.
+
+(* so is the second: [wfsb] does not constrain the element type of an empty array, and for an element "type" that is
+   not a type (here the lone code '(') find_len_of_complete_type runs into the end of the string (an assertion in C) *)
+Example writer_types_premise :
+  wfsb true [VArr (TBasic 40) []] 0 0 = true /\ run_writer true (ops_of_vals [VArr (TBasic 40) []]) = None.
+Proof. vm_compute. split; reflexivity. Qed.
+
+(* a type error the C checks do not see (the child array's contained type is only compared when the parent is
+   itself an array): an "ay" opened where the struct inside a(axi) expects "ax" goes through and leaves the
+   empty array padded for 1-byte elements *)
+Example wex_unchecked_misuse :
+  run_writer true [WBasic (VNum 121 1); WOpen KArray [40; 97; 120; 105; 41]; WOpen KStruct []; WOpen KArray [121]; WClose; WBasic (VNum 105 5); WClose; WClose]
+  = Some ([1; 0;0;0; 8;0;0;0; 0;0;0;0; 5;0;0;0], [121; 97; 40; 97; 120; 105; 41]).
+Proof. vm_compute. reflexivity. Qed.
+
+Print Assumptions writer_correct.
+Print Assumptions value_written_all.
